@@ -109,11 +109,13 @@ func vpH_c19_obs_plugin() {
 		cfg = map[string]any{cfgKey: cfgVal}
 	}
 	p := &Plugin{Source: src, Config: cfg}
+	whole := vpSnapshot(p)
 	_ = p.FullSource()
 	_, err := p.MarshalJSON()
 	vpAssert(err == nil, "plugin marshals")
 	_, _ = p.MarshalYAML()
 	vpAssert(p.Source == src, "FullSource/Marshal do not rewrite the plugin source (no memoised canonical form)")
+	vpAssert(vpUnchanged(p, whole), "FullSource/Marshal write nothing at all into the plugin")
 	switch cfgKind {
 	case 0:
 		vpAssert(p.Config == nil, "marshalling does not touch a nil config")
@@ -130,18 +132,23 @@ func vpH_c19_obs_plugin() {
 func vpH_c19_obs_matrix() {
 	dim, v1, v2 := vpStrUpTo(1, "a-b"), vpStr(1, "x-z"), vpStr(1, "x-z")
 	m := &Matrix{Setup: MatrixSetup{dim: {v1, v2}}}
+	if vpBool() {
+		m.Setup["nil-valued"] = nil // a dimension written without values
+	}
 	withAdj := vpBool()
 	if withAdj {
 		m.Adjustments = MatrixAdjustments{{With: MatrixAdjustmentWith{dim: v1}, Skip: vpBool()}}
 	}
 	perm := MatrixPermutation{dim: vpStr(1, "x-z")}
 	pv := perm[dim]
+	whole, wperm := vpSnapshot(m), vpSnapshot(perm)
 	_ = m.validatePermutation(perm)
 	_, err := m.MarshalJSON()
 	vpAssert(err == nil, "matrix marshals")
 	_, _ = m.MarshalYAML()
 	_ = m.IsEmpty()
-	vpAssert(len(m.Setup) == 1 && len(m.Setup[dim]) == 2 && m.Setup[dim][0] == v1 && m.Setup[dim][1] == v2, "matrix observers do not modify the setup")
+	vpAssert(vpUnchanged(m, whole) && vpUnchanged(perm, wperm), "matrix observers write nothing at all into the matrix or the permutation (nil value lists stay nil)")
+	vpAssert(len(m.Setup[dim]) == 2 && m.Setup[dim][0] == v1 && m.Setup[dim][1] == v2, "matrix observers do not modify the setup")
 	vpAssert(len(perm) == 1 && perm[dim] == pv, "validation does not modify the permutation")
 	if withAdj {
 		vpAssert(len(m.Adjustments) == 1 && len(m.Adjustments[0].With) == 1 && m.Adjustments[0].With[dim] == v1, "matrix observers do not modify adjustments")
@@ -159,8 +166,11 @@ func vpH_c19_obs_step() {
 		m = nil
 	}
 	step := &CommandStep{Command: "c", Label: vpStrUpTo(1, "a-b"), Plugins: Plugins{p}, Matrix: m, Env: map[string]string{"k": "v"}}
+	whole := vpSnapshot(step)
 	_, err := step.MarshalJSON()
 	vpAssert(err == nil, "command step marshals")
+	_, yerr := yaml.Marshal(step)
+	vpAssert(yerr == nil && vpUnchanged(step, whole), "marshalling writes nothing at all into the step (plugins, matrix and env included)")
 	vpAssert(step.Command == "c" && len(step.Plugins) == 1 && step.Plugins[0] == p && step.Matrix == m && len(step.Env) == 1 && step.Env["k"] == "v", "marshalling does not modify the step")
 	vpAssert(step.RemainingFields == nil && step.Signature == nil && step.Cache == nil, "marshalling does not materialise absent fields")
 }
